@@ -82,11 +82,23 @@ MANIFEST = dict(
          "unchanged). The defaults passed are 'DFLT', None (also omitted), ['D'], ('D',), [None], [[]], {}, 0, '', [1, 2], [] "
          "and the oracle on a miss is IDENTITY: get(miss, d) is d and first(miss, d) is d ('' for a '?' path); on a hit first "
          "must not hand the default object out (evaluators lookup, lookup/exhaustive, lookup/new-step, lookup/long; the "
-         "correspondence streams carry the list / dict / '' defaults too - the value model has no tuples).",
+         "correspondence streams carry the list / dict / '' defaults too - the value model has no tuples). "
+         "'..' steps (fix C04-g: a '..' that surfaces to the ROOT as the last step of the path finds the root - before, the "
+         "FOUND branch built the found text from the root's missing name: TypeError, i.e. a miss for a path that resolves; "
+         "d.delete('x/../s') removed s and then raised): C04_up_to_root (k/.. for a plain key k of a dict root returns the root "
+         "through item access, get and first, every fuel >= 3, every default; token level C04_up_to_root_find: the result _find "
+         "reports for an empty xpath); the purity, termination and selection proofs were rebuilt through the changed branch. "
+         "Deeper shapes (k[i]/.., a/b/../.., below a selecting step, list roots) by examples through the model, stream xp.get/up "
+         "and evaluator lookup/up: the canonical path of a random node followed by 1..n '..' steps (n = its number of steps; "
+         "name[i] is one step), optionally one step down again, dict and list roots, must resolve - item access, '?', get, "
+         "first return the ancestor object itself, tree unchanged.",
     note="known finding C04-d: a dict key named '*' (or '..' below a '*' step) makes a '*' step recurse until the interpreter's "
          "limit: every such lookup is a miss, also N({'*': {'x': 1}})['*/x'] which resolves (trees of the harness have plain-name "
          "keys, so the streams do not meet it). Paths with a '[new()]' step are generated and "
-         "checked like all others since fix C04-a.",
+         "checked like all others since fix C04-a. Known finding C04-h: a '..' step directly below a SCALAR element that the "
+         "list-side search reached (list root, index steps only: [[5, 6]]['[0][1]/..']) raises TypeError although the path "
+         "resolves - n0list._find refuses every step below a scalar; the model reproduces it (C04_up_below_list_scalar_cex), "
+         "lookup/up suppresses exactly that class.",
     design_ref="5/C04",
 )
 
@@ -537,7 +549,92 @@ def gen_long(rng, ctx_thorough):
     return {"long": {"kind": "chain", "n": 700, "kinds": "d", "merged": False, "lead": ""}}
 
 
+# ---------------------------------------------------------------------------------------------------------
+# '..' steps (fix C04-g): a path of real steps followed by '..' steps resolves to the ancestor they climb to - the ROOT
+# included when '..' is the last step (before the fix: TypeError, i.e. a miss).  '..' goes up one STEP of the path; name[i]
+# is one step (the i-th `name` of its parent), an index below an index is a step of its own.
+# ---------------------------------------------------------------------------------------------------------
+def path_step_ends(pos):
+    """prefix lengths of pos at which a step of the canonical path a/b[0][1]/c ends: [1, 3, 4, 5] for (a, b, 0, 1, c)"""
+    ends = []
+    for k, s in enumerate(pos):
+        if isinstance(s, int) and k > 0 and isinstance(pos[k - 1], str):
+            ends[-1] = k + 1            # name[i]: the index belongs to the step of the name
+        else:
+            ends.append(k + 1)
+    return ends
+
+
+def up_case_parts(c):
+    """(container, path text, the node the path addresses)"""
+    tree, pos, up = c["tree"], c["pos"], c["up"]
+    o = X.convert(tree, c["mode"])
+    ends = [0] + path_step_ends(pos)
+    n = len(ends) - 1                    # number of steps
+    assert 1 <= up <= n
+    xp = c.get("lead", "") + X.render_rel(tree, tuple(pos)) + "/.." * up
+    reach = n - up                       # steps left
+    if c.get("down"):
+        # ... and the step just left once more: back at the node one step below
+        seg = pos[ends[reach]:ends[reach + 1]]
+        if isinstance(seg[0], str):
+            xp += "/" + seg[0] + "".join("[%d]" % i for i in seg[1:])
+        else:
+            xp += "[%d]" % seg[0]
+        reach += 1
+    return o, xp, X.get_at(o, pos[:ends[reach]])
+
+
+def check_up(c):
+    o, xp, want = up_case_parts(c)
+    before = enc_val(o)
+    item = core.call(lambda: o[xp])
+    if item[0] != "ok":
+        return {"path_resolves_but_item_access_raised": item[1], "xp": xp}
+    if item[1] is not want:
+        return {"item_access_returned": repr(item[1])[:200], "want": repr(want)[:200], "xp": xp}
+    q = core.call(lambda: o["?" + xp])
+    if q[0] != "ok" or q[1] is not want:
+        return {"qmark_item_access": repr(q)[:200], "xp": xp}
+    for d in ["DFLT", None, ["D"], {}]:
+        g = core.call(lambda: o.get(xp, d) if d is not None else o.get(xp))
+        if g[0] != "ok" or g[1] is not want:
+            return {"get_returned": repr(g)[:200], "want": repr(want)[:200], "default": repr(d), "xp": xp}
+        f = core.call(lambda: o.first(xp, d) if d is not None else o.first(xp))
+        unwrapped = want[0] if isinstance(want, (list, tuple)) and len(want) == 1 else want
+        if f[0] != "ok" or f[1] is not unwrapped:
+            return {"first_returned": repr(f)[:200], "want": repr(unwrapped)[:200], "default": repr(d), "xp": xp}
+    if enc_val(o) != before:
+        return {"lookup_changed_tree": True, "xp": xp}
+    return None
+
+
+def below_list_side_scalar(c, detail=None):
+    """class of the open finding C04-h: the steps before the first '..' are index steps only, from a LIST root, and end on a
+    scalar - the list-side search (n0list._find) refuses any step below a scalar element, '..' included"""
+    if isinstance(c.get("tree"), list) and "pos" in c and all(isinstance(s, int) for s in c["pos"]) \
+            and not isinstance(X.get_at(c["tree"], c["pos"]), (dict, list)):
+        return "C04-h"
+    return None
+
+
+def gen_up(rng):
+    for _ in range(50):
+        t = X.gen_plain(rng, rng.choice([1, 2, 3, 4]), rng.choice("dddl"))
+        poss = [p for p, _ in X.positions(t) if p]
+        if not poss:
+            continue
+        p = list(rng.choice(poss))
+        n = len(path_step_ends(p))
+        up = rng.choice([1, n, n, rng.randrange(1, n + 1)])
+        return {"tree": t, "mode": rng.choice(["n0", "wrap"]), "pos": p, "up": up, "lead": rng.choice(["", "", "/", "//"]),
+                "down": rng.random() < 0.3}
+    return {"tree": {"a": 1}, "mode": "n0", "pos": ["a"], "up": 1, "lead": "", "down": False}
+
+
 def checker_of(evaluator):
+    if "/up" in (evaluator or ""):
+        return check_up
     if "long" in (evaluator or ""):
         return check_long
     return check_depth if "depth" in (evaluator or "") else check_lookup
@@ -563,7 +660,7 @@ def shrink_failure(evaluator, case):
             else:
                 lo = mid + 1
         return best
-    if case.get("expect_hit"):
+    if case.get("expect_hit") or "up" in case:
         return case  # the path was derived from this very tree: a smaller tree would fail for another reason
     chk = checker_of(evaluator)
     xp0 = case.get("xp")
@@ -586,6 +683,8 @@ def replay(rp):
 
 def witness_fails(f):
     w = f["witness"]
+    if "up" in w:
+        return check_up(w) is not None and below_list_side_scalar(w) == f["id"]
     return check_lookup({"tree": w["tree"], "mode": w.get("mode", "n0"), "xp": w["xp"], "expect_hit": w.get("expect_hit", False)}) is not None
 
 
@@ -693,6 +792,25 @@ def run(ctx):
         "required_to_resolve(<=SAFE_STEPS)": sum(1 for c in lcases if long_case_parts(c)[2] <= SAFE_STEPS),
         "SAFE_STEPS": SAFE_STEPS,
         "compared_with_model": len(lb),
+    }
+    # ---- '..' steps up to an ancestor, the root included (fix C04-g)
+    rng = ctx.rng("up-steps")
+    ucases = [gen_up(rng) for _ in range(ctx.budget(250, 6000))]
+    ucases.append({"tree": {"a": 1, "l": [{"k": 1}], "x": {"y": 2}, "s": 5}, "mode": "n0", "pos": ["a"], "up": 1, "lead": "", "down": False})
+    ucases.append({"tree": {"a": 1, "l": [{"k": 1}], "x": {"y": 2}, "s": 5}, "mode": "n0", "pos": ["l", 0], "up": 1, "lead": "", "down": False})
+    ucases.append({"tree": [{"a": [[1, 2]]}], "mode": "n0", "pos": [0, "a", 0, 1], "up": 3, "lead": "", "down": False})
+    ctx.evaluate("lookup/up", ucases, check_up, in_known=below_list_side_scalar, nontrivial=lambda c: True)
+    ub = [dict(c, xp=up_case_parts(c)[1], kind=rng.choice("gif"), d=rng.choice(B_DEFAULTS)) for c in ucases]
+    ctx.correspond(
+        "xp.get/up",
+        ub,
+        lambda c: "xp.get %s %s %s %s" % (c["kind"], enc_str(c["xp"]), enc_val(c["d"]), enc_val(X.convert(c["tree"], c["mode"]))),
+        impl_get,
+    )
+    ctx.extra["up_steps"] = {
+        "cases": len(ucases),
+        "reach_the_root_as_last_step": sum(1 for c in ucases if c["up"] == len(path_step_ends(c["pos"])) and not c["down"]),
+        "list_root": sum(1 for c in ucases if isinstance(c["tree"], list)),
     }
     # ---- termination: the proven fuel bound (C04_fuel_bound) fed back into the check
     safe = [c for c in lk + ncases if safe_case(c)]
